@@ -1,6 +1,7 @@
 import Ebu.Spec.Locks
 import Ebu.Generated.Consts
 import Ebu.Model.Inflight
+import Ebu.Model.RegistrySteps
 import Ebu.Proofs.Locks
 /-!
 C03 — Concurrent use of the API is free of data races and deadlocks.
@@ -59,6 +60,15 @@ inside ONE write-locked critical section (an `Unsubscribe` that finds its handle
 removes "the element at that index" under another removes somebody else's registration when two removals overlap);
 this is what lets the interleaving model M2 treat them as single atomic steps -/
 theorem facts_registry_ops_atomic : RegistryOpsAtomic accessFacts = true := by decide
+
+/-- the obligation above is not decoration (M2r): removals done atomically touch nobody else's registration in
+either lock order, while "find the index, release, re-lock, cut that index" lets two overlapping removals leave
+an unsubscribed handler registered and delete one nobody unsubscribed -/
+theorem two_phase_unsubscribe_is_wrong :
+    (∀ (r : Ebu.RegistrySteps.Reg) (a b c : Nat), c ≠ a → c ≠ b →
+      (Ebu.RegistrySteps.removeAtomic (Ebu.RegistrySteps.removeAtomic r a) b).count c = r.count c) ∧
+    Ebu.RegistrySteps.removeAt (Ebu.RegistrySteps.removeAt [10, 20, 30] 0) 1 = [20] :=
+  ⟨fun r a b c hca hcb => (Ebu.RegistrySteps.atomic_removals_exact r a b).2 c hca hcb, by decide⟩
 
 /-- OBLIGATION + consequence: `inflight.done` in the current source broadcasts when the count reaches zero and
 `inflight.wait` re-checks the count in a loop; hence (M2w, `Ebu/Model/Inflight.lean`) with any number of goroutines
